@@ -170,6 +170,33 @@ enum Pert {
     WidenTupleOrList(usize),
 }
 
+fn pert_json(p: &Pert) -> serde_json::Value {
+    match p {
+        Pert::ReplaceWithLiteral(a, b) => json!({"kind": "ReplaceWithLiteral", "a": a, "b": b}),
+        Pert::ReplaceWithName(a, b) => json!({"kind": "ReplaceWithName", "a": a, "b": b}),
+        Pert::SwapArgs(a) => json!({"kind": "SwapArgs", "a": a}),
+        Pert::DropStmt(a) => json!({"kind": "DropStmt", "a": a}),
+        Pert::DropTrailingOfBlock(a) => json!({"kind": "DropTrailingOfBlock", "a": a}),
+        Pert::ChangeAnnotation(a, b) => json!({"kind": "ChangeAnnotation", "a": a, "b": b}),
+        Pert::WidenTupleOrList(a) => json!({"kind": "WidenTupleOrList", "a": a}),
+    }
+}
+
+fn pert_from_json(v: &serde_json::Value) -> Option<Pert> {
+    let a = v["a"].as_u64()? as usize;
+    let b = v["b"].as_u64().unwrap_or(0) as usize;
+    Some(match v["kind"].as_str()? {
+        "ReplaceWithLiteral" => Pert::ReplaceWithLiteral(a, b),
+        "ReplaceWithName" => Pert::ReplaceWithName(a, b),
+        "SwapArgs" => Pert::SwapArgs(a),
+        "DropStmt" => Pert::DropStmt(a),
+        "DropTrailingOfBlock" => Pert::DropTrailingOfBlock(a),
+        "ChangeAnnotation" => Pert::ChangeAnnotation(a, b),
+        "WidenTupleOrList" => Pert::WidenTupleOrList(a),
+        _ => return None,
+    })
+}
+
 fn count_nodes(p: &Program) -> usize {
     let mut n = 0;
     visit_exprs(&mut p.clone(), &mut |_| {
@@ -589,7 +616,7 @@ pub fn run(run: &mut Run) {
                     let kind = kind.split('(').next().unwrap_or("").to_string();
                     let mut preds = classify_preds(&text, &sig, &detail);
                     preds.push(format!("perturbation:{}", kind));
-                    acc.fail(Failure { sig: sig.clone(), preds, detail: format!("family {} perturbation {:?}\n{}", fam, pert, detail), case: json!({"engine": "c02", "files": files}), size: text.len() });
+                    acc.fail(Failure { sig: sig.clone(), preds, detail: format!("family {} perturbation {:?}\n{}", fam, pert, detail), case: json!({"engine": "c02", "files": files, "base_index": bi, "thorough": thorough, "perturbation": pert_json(&pert)}), size: text.len() });
                 }
             }
         }
@@ -607,18 +634,28 @@ pub fn run(run: &mut Run) {
 }
 
 pub fn replay(case: &serde_json::Value) -> Option<(String, String)> {
+    // regenerate the base by index, re-apply the recorded perturbation and judge it again (the strict
+    // reference run needs the AST; a tag error does not always surface in Lua, which coerces)
+    if let (Some(bi), Some(pert)) = (case["base_index"].as_u64(), pert_from_json(&case["perturbation"])) {
+        let bs = bases(case["thorough"].as_bool().unwrap_or(false));
+        let (_, base) = bs.get(bi as usize)?;
+        let names = names_of(base);
+        let mut q = apply(base, &pert, &names)?;
+        let (j, text) = judge(&mut q);
+        if Some(text.as_str()) != case["files"][MAIN].as_str() {
+            println!("note: the regenerated program differs from the recorded one (the families changed since the case was recorded)");
+        }
+        return match j {
+            Judged::Unsound(sig, detail) => Some((sig, detail)),
+            _ => None,
+        };
+    }
     let text = case["files"][MAIN].as_str()?;
     match compile_src(text) {
-        Outcome::Ok(lua) => {
-            let r = run_lua(&lua, 3_000_000);
-            match r.end {
-                LuaEnd::RuntimeError(m) => Some(("accepted-but-lua-runtime-error".into(), m)),
-                other => {
-                    println!("accepted; Lua run ends with {:?} (a tag error seen only by the strict reference interpreter does not always surface in Lua, which coerces)", other);
-                    Some(("accepted-but-tag-error".into(), "the compiler accepts the program; see detail.txt for the strict run".into()))
-                }
-            }
-        }
+        Outcome::Ok(lua) => match run_lua(&lua, 3_000_000).end {
+            LuaEnd::RuntimeError(m) => Some(("accepted-but-lua-runtime-error".into(), m)),
+            _ => None,
+        },
         _ => None,
     }
 }
